@@ -253,6 +253,32 @@ class TrackedArray(np.ndarray):
             return tuple(wrap(r, t) for r, t in zip(result, targets))
         return wrap(result, None if out is None else out[0])
 
+    def __array_function__(self, func, types, args, kwargs):
+        """
+        Functions like `np.copyto`, `np.putmask`, `np.fill_diagonal`
+        or anything called with `out=` may write into their arguments
+        so mark every tracked argument as modified.
+        """
+        for arg in args:
+            if isinstance(arg, TrackedArray):
+                arg._dirty_hash = True
+        for arg in kwargs.values():
+            for item in arg if isinstance(arg, tuple) else (arg,):
+                if isinstance(item, TrackedArray):
+                    item._dirty_hash = True
+        return super().__array_function__(func, types, args, kwargs)
+
+    @property
+    def flat(self):
+        # the iterator can be assigned through
+        self._dirty_hash = True
+        return np.ndarray.flat.__get__(self)
+
+    @flat.setter
+    def flat(self, value):
+        self._dirty_hash = True
+        np.ndarray.flat.__set__(self, value)
+
     @property
     def mutable(self):
         return self.flags["WRITEABLE"]
